@@ -41,6 +41,7 @@ class Run:
         self.tier = tier
         self.seed = seed
         self.t0 = time.time()
+        self.pid = os.getpid()
         self.scratch = tempfile.mkdtemp(prefix=f"reval-verif-{prop}-", dir=SCRATCH_BASE)
         self.snap = os.path.join(self.scratch, "reval")
         self.obligations = []      # dicts: id, kind, bounds, verdict, time_s, ...
@@ -57,10 +58,14 @@ class Run:
             signal.signal(sig, self._sig)
 
     def _sig(self, signum, frame):
+        if os.getpid() != self.pid:
+            os._exit(143)
         self.cleanup()
         os._exit(130)
 
     def cleanup(self):
+        if os.getpid() != getattr(self, "pid", os.getpid()):
+            return      # a forked worker must never remove the parent's scratch directory
         if os.environ.get("VERIF_KEEP"):
             log(f"[keep] scratch left at {self.scratch}")
             return
